@@ -54,7 +54,7 @@ def inventory():
             'undecoded_sample': [n for n in ('RealFaultAddressPurgeable', 'VFS_LOOKUP_DONE', 'MACH_vm_page_release',
                                              'PMAP_flush_TLBS', 'BSC_pread_extended_info', 'TRACE_INFO_STRING')
                                  if n in n2i] or undecoded[:5],
-            'unknown_ids': [0xfe000000, 0x2a040000, 0x99990004],
+            'unknown_ids': [0xfe000000, 0x2a040000, 0x99990004, 0x07000014, 0x07010018, 0x0701ff00, 0x07000000],
         }
     return _INV
 
